@@ -445,3 +445,14 @@ package flushable
 //@   requires p != nil && p.wrappers != nil
 //@   modifies p.wrappers[*]
 //@   ensures  result1 == nil && result0 != nil
+//@
+//@ // Names / NotFlushedSizeEst (C28, lock discipline): the pool's table is read with the pool's mutex held
+//@ func (*SyncedPool).Names
+//@   requires p != nil
+//@   ensures  fresh(result) || result == nil
+//@   loop 1 modifies names[*]
+//@   loop 1 invariant arrof(names) == arrof(atentry(names)) || arrfresh(names, _loopalloc)
+//@   loop 1 invariant arrfresh(names, old(_alloc))
+//@ func (*SyncedPool).NotFlushedSizeEst
+//@   requires p != nil && forall(n string, has(p.wrappers, n) ==> p.wrappers[n].Flushable != nil && p.wrappers[n].Flushable.LazyFlushable != nil && p.wrappers[n].Flushable.LazyFlushable.Flushable != nil && p.wrappers[n].Flushable.LazyFlushable.Flushable.sizeEstimation != nil)
+//@   loop 1 invariant true
